@@ -202,6 +202,20 @@ def forward_subst(stmts: list[ast.stmt], pure_calls=(), keep: set[str] = frozens
         out = []
         for idx, s in enumerate(body):
             rest = body[idx + 1:]
+            if isinstance(s, ast.Assign) and len(s.targets) == 1 and isinstance(s.targets[0], ast.Tuple) and isinstance(s.value, ast.Tuple) \
+                    and len(s.targets[0].elts) == len(s.value.elts) and all(isinstance(t, ast.Name) for t in s.targets[0].elts) \
+                    and not any(isinstance(v, ast.Starred) for v in s.value.elts):
+                # a, b = (x, y): parallel binding of simple names
+                vals = [_Subst(env).visit(v) for v in s.value.elts]
+                s.value.elts = vals
+                names = {t.id for t in s.targets[0].elts}
+                _kill(env, names)
+                _store_kill(env, s)
+                for t, v in zip(s.targets[0].elts, vals):
+                    if t.id not in keep and is_pure(v, pure_calls) and not (free(v) & names) and (is_reference(v) or is_scalar(v)):
+                        env[t.id] = v
+                out.append(s)
+                continue
             if isinstance(s, (ast.Assign, ast.AnnAssign)) and (s.value is not None):
                 s.value = _Subst(env).visit(s.value)
                 tgts = s.targets if isinstance(s, ast.Assign) else [s.target]
